@@ -292,6 +292,13 @@ func main() {
 		fk := strings.Join(focusKinds, ",")
 		runBatch("worker", n, 1<<42, false, "focus", "-focus", fk, "-epochkeys")
 		runBatch("worker", n, 1<<42, false, "focusperm", "-focus", fk, "-epochkeys", "-permute")
+		if cfg.race > 0 {
+			// first-use effects (lazy initialisation) are visible once per
+			// process: many short-lived race processes on the focus kinds
+			for i := 0; i < 4; i++ {
+				runBatch("worker-race", cfg.race/16, 1<<43+uint64(i)<<20, true, "racefocus", "-focus", fk)
+			}
+		}
 		var runsDiff []uint64
 		for run, k := range epochKeys["focus"] {
 			focusRuns++
